@@ -5,9 +5,9 @@ use vh::runner::pick_idx;
 use vh::util::BStr;
 
 /// the last one is optional (static PIE with REL relocations: needs a linker that knows `-z rel`)
-pub const MODES: [&str; 7] = ["dyn-debug", "dyn-release", "static-debug", "static-release", "pie-debug", "pie-release", "pierel-debug"];
-pub const NB: usize = 7;
-pub const BUILD_CLASS: [&str; 7] = ["build-dyn-debug", "build-dyn-release", "build-static-debug", "build-static-release", "build-pie-debug", "build-pie-release", "build-pierel-debug"];
+pub const MODES: [&str; 9] = ["dyn-debug", "dyn-release", "static-debug", "static-release", "pie-debug", "pie-release", "pierel-debug", "min-debug", "min-release"];
+pub const NB: usize = 9;
+pub const BUILD_CLASS: [&str; 9] = ["build-dyn-debug", "build-dyn-release", "build-static-debug", "build-static-release", "build-pie-debug", "build-pie-release", "build-pierel-debug", "build-minimal-features-debug", "build-minimal-features-release"];
 
 /// Largest string execve accepts (MAX_ARG_STRLEN = 32 pages includes the terminator).
 pub const MAX_ARG: u32 = 131_071;
@@ -203,9 +203,9 @@ fn resolve_key(spec: &KeySpec, envp: &[Vec<u8>]) -> Vec<u8> {
 
 fn builds(thorough: bool, quick_n: usize) -> BoxedStrategy<Vec<u8>> {
     if thorough {
-        Just((0u8..7).collect::<Vec<u8>>()).boxed()
+        Just((0u8..9).collect::<Vec<u8>>()).boxed()
     } else {
-        prop::sample::subsequence((0u8..7).collect::<Vec<u8>>(), quick_n).boxed()
+        prop::sample::subsequence((0u8..9).collect::<Vec<u8>>(), quick_n).boxed()
     }
 }
 
